@@ -232,9 +232,24 @@ fn build_and_check<K: Kernel<D, Scalar = f64>, const D: usize>(rep: &Report, cn:
         }
         let skipped = st.skipped_duplicate + st.skipped_degeneracy;
         let missing = verts.len() - snap.n_vertices();
+        // inputs that are absent and cannot have been removed by the configured dedup policy must be accounted as skipped
+        let unexplained = {
+            let present: HashSet<uuid::Uuid> = snap.verts.iter().map(|v| v.uuid).collect();
+            verts
+                .iter()
+                .enumerate()
+                .filter(|(_, v)| !present.contains(&v.uuid()))
+                .filter(|(i, _)| match cfg.dedup {
+                    DedupPolicy::Off => true,
+                    DedupPolicy::Exact => !pts.iter().enumerate().any(|(j, q)| j != *i && q.iter().zip(pts[*i].iter()).all(|(a, b)| a == b)),
+                    DedupPolicy::Epsilon { tolerance } => !pts.iter().enumerate().any(|(j, q)| j != *i && vcore::exact::dist_cmp(q, &pts[*i], tolerance * 1.01) < 0),
+                    _ => false,
+                })
+                .count()
+        };
         let bad = match cfg.dedup {
             DedupPolicy::Off => skipped != missing,
-            _ => skipped > missing,
+            _ => skipped > missing || unexplained > skipped,
         };
         if bad {
             rep.violation(Finding {
@@ -336,7 +351,12 @@ fn run_dim<const D: usize>(rep: &Report, cn: &Counters, thorough: bool, bounds: 
     bounds.insert(format!("D{D} ordered arrangements"), json!({"arrangements": n_arr.load(Ordering::Relaxed), "max_size": kmax, "stride": if D <= 3 { 1 } else { 7 }}));
     // variants: multisets (one repeated point), scales, translation, near-duplicates, clusters
     let var_sets: Vec<Vec<[f64; D]>> = sets_of(&base, D + 1..=(D + 3).min(base.len())).into_iter().step_by(if thorough { 1 } else { 3 }).collect();
-    let var_cfgs = if thorough { devs.clone() } else { dflt.clone() };
+    let mut var_cfgs = if thorough { devs.clone() } else { dflt.clone() };
+    // the epsilon-dedup implementations switch code paths with the coordinate / tolerance ratio
+    for tol in [1e-10, 0.5] {
+        var_cfgs.push(Cfg { dedup: DedupPolicy::Epsilon { tolerance: tol }, with_stats: true, ..Cfg::default_cfg() });
+    }
+    var_cfgs.push(Cfg { dedup: DedupPolicy::Exact, with_stats: true, ..Cfg::default_cfg() });
     let nvar = AtomicU64::new(0);
     var_sets.par_iter().for_each(|set| {
         let mut variants: Vec<(String, Vec<[f64; D]>)> = Vec::new();
@@ -348,6 +368,7 @@ fn run_dim<const D: usize>(rep: &Report, cn: &Counters, thorough: bool, bounds: 
         variants.push(("scale2^-40".into(), scaled(set, 2f64.powi(-40), 0.0)));
         variants.push(("scale2^40".into(), scaled(set, 2f64.powi(40), 0.0)));
         variants.push(("shift2^30".into(), scaled(set, 1.0, 2f64.powi(30))));
+        variants.push(("scale2^32".into(), scaled(set, 2f64.powi(32), 0.0)));
         for delta in [1e-11, 0.99e-10, 1.01e-10, 1e-9] {
             let mut m = set.clone();
             let mut q = set[0];
@@ -421,6 +442,9 @@ fn replay(path: &str) -> ! {
     let label = r["cfg"].as_str().unwrap();
     let mut all = full_product();
     all.extend(deviations(true));
+    for tol in [1e-10, 0.5] {
+        all.push(Cfg { dedup: DedupPolicy::Epsilon { tolerance: tol }, with_stats: true, ..Cfg::default_cfg() });
+    }
     let cfg = all.into_iter().find(|c| c.label() == label).expect("cfg label");
     let kernel = r["kernel"].as_str().unwrap().to_string();
     let raw: Vec<Vec<f64>> = r["points"].as_array().unwrap().iter().map(|p| p.as_array().unwrap().iter().map(|x| x.as_f64().unwrap()).collect()).collect();
